@@ -37,11 +37,7 @@ func stepDDocAtomic(kind int) {
 			verifAssume(err == nil)
 		}
 	}
-	nf := 1
-	if verifThorough() {
-		nf = 2
-	}
-	verifFaults(env.db, nf)
+	verifFaults(env.db, verifFaultBudget)
 	cc0 := verifCommitCount(env.db)
 	snap := verifSnapshot(env.db)
 	var err error
@@ -81,6 +77,20 @@ func Harness_C10_deleteWithMeta()    { stepWithMeta(pC10, true) }
 func Harness_C10_setXattrs()         { stepXattr(pC10, xSetXattrs) }
 func Harness_C10_removeXattrs()      { stepXattr(pC10, xRemoveXattrs) }
 func Harness_C10_deleteWithXattrs()  { stepXattr(pC10, xDeleteWithXattrs) }
+
+// number of injected faults per call: 1, and 2 in the *_2faults_T harnesses of the thorough tier
+var verifFaultBudget = 1
+
+func twoFaults(f func()) { verifFaultBudget = 2; f() }
+
+func Harness_C10_addRaw_2faults_T()     { twoFaults(Harness_C10_addRaw) }
+func Harness_C10_setRaw_2faults_T()     { twoFaults(Harness_C10_setRaw) }
+func Harness_C10_remove_2faults_T()     { twoFaults(Harness_C10_remove) }
+func Harness_C10_touch_2faults_T()      { twoFaults(Harness_C10_touch) }
+func Harness_C10_incr_2faults_T()       { twoFaults(Harness_C10_incr) }
+func Harness_C10_writeCas_2faults_T()   { twoFaults(Harness_C10_writeCas) }
+func Harness_C10_putDDocReplace_2faults_T() { twoFaults(Harness_C10_putDDocReplace) }
+func Harness_C10_deleteDDoc_2faults_T() { twoFaults(Harness_C10_deleteDDoc) }
 
 // thorough tier only (tens of thousands of paths each)
 func Harness_C10_writeTombstone_T()        { stepXattr(pC10, xWriteTombstone) }
